@@ -513,3 +513,12 @@ fn unused() {
     let _ = run_child(&[], 0, 0);
     let _: Option<ChildResult> = None;
 }
+
+/// one generated case from a raw choice tape (the coverage-guided tier feeds tapes decoded from bytes)
+pub fn fuzz_one(tape: &[u32], l: &mut Local) -> CaseRes {
+    let (g, input, sub) = decode(tape);
+    if !wf(&g) {
+        return Ok(());
+    }
+    check_inner(sub, &g, &input, l)
+}
